@@ -225,6 +225,58 @@ def tx_interleavings(ck):
     return bad
 
 
+def ddl_interleavings(ck):
+    """Statements that take several engine calls (RENAME TO / RENAME COLUMN / CREATE OR REPLACE ... COMMENT move or rewrite recorded metadata after the DDL
+    call) against a DROP / RENAME of ANOTHER table of the same schema by a second session, interleaved at every engine-call boundary of the first.
+    Oracle only (the Steps model has no such operations): every statement succeeds and the metadata of every table is what the serial execution gives."""
+    from fakesnow.instance import FakeSnow
+
+    def meta(fs):
+        cur = fs.duck_conn.cursor()
+        out = []
+        for (t,) in cur.execute("select table_name from information_schema.tables where table_catalog = 'DB1' and table_schema = 'S1' and table_type = 'BASE TABLE' order by 1").fetchall():
+            out.append((t, cur.execute(f"select comment from DB1.information_schema._fs_tables_ext where ext_table_name = '{t}' and comment is not null").fetchall(),
+                        cur.execute(f"select ext_column_name, ext_character_maximum_length from DB1.information_schema._fs_columns_ext where ext_table_name = '{t}' "
+                                    "and ext_character_maximum_length is not null order by 1").fetchall()))
+        return out
+
+    def fresh():
+        fs = FakeSnow()
+        c0 = fs.connect(database="db1", schema="s1")
+        for q in ("create table ra (v varchar(7), n int) comment = 'c-ra'", "create table scratch (x varchar(3)) comment = 'c-s'"):
+            c0.cursor().execute(q)
+        return fs, [fs.connect(database="db1", schema="s1"), fs.connect(database="db1", schema="s1")]
+
+    bad = []
+    pairs = [("alter table ra rename to rb", "drop table scratch"), ("alter table ra rename column v to w", "drop table scratch"),
+             ("create or replace table ra (v varchar(9)) comment = 'new'", "alter table scratch rename to scratch2"), ("alter table ra rename to rb", "alter table scratch rename column x to y")]
+    for sa, sb in pairs:
+        fs, cs = fresh()
+        cs[0].cursor().execute(sa)
+        cs[1].cursor().execute(sb)
+        want = meta(fs)
+        fs.duck_conn.close()
+        for k in range(0, 13):
+            fs, _cs = fresh()
+
+            def script(sql, fs=fs):
+                # (the session connects inside the scheduled run: only then do its engine calls go through the scheduler's proxy)
+                return lambda _i: fs.connect(database="db1", schema="s1").cursor().execute(sql)
+
+            scripts = [script(sa), script(sb)]
+            trace, errors, _ = sched.run_sessions(fs, scripts, [0] * k + [1] * 40 + [0] * 40)
+            if k == 12 and not any(i == 0 for i, _q in trace):
+                raise core.MachineryError("ddl_interleavings: the scheduler saw no engine call of session A")
+            got = meta(fs)
+            fs.duck_conn.close()
+            ck.cov["evaluations"] += 1
+            ck.count("scenario:ddl-vs-ddl")
+            if errors or got != want:
+                bad.append({"statements": [f"A: {sa}", f"B: {sb}"], "schedule": f"A is preempted at its switch point {k} (connect included), B runs completely, then A finishes", "errors": {i: repr(e)[:160] for i, e in errors.items()},
+                            "metadata": got, "serial_metadata": want, "engine_calls": [(i, " ".join(q.split())[:80]) for i, q in trace]})
+    return bad
+
+
 def main():
     ck = Check("C19", "Steps", "run_c19")
     ck.prepare()
@@ -354,6 +406,12 @@ def main():
         b0 = badtx[0]
         report("tx", f"two sessions with explicit transactions: {b0['statements']}: the table holds {b0['table']} but the sessions whose statements all reported success wrote "
                      f"{b0['rows_of_sessions_whose_statements_all_succeeded']} (inserts lost or phantom rows); {len(badtx)} interleavings fail", b0)
+    # (2c) multi-call DDL of two sessions on different tables of one schema, every engine-call split point
+    badddl = ddl_interleavings(ck)
+    if badddl:
+        b0 = badddl[0]
+        report("ddl", f"{b0['statements']} ({b0['schedule']}): errors {b0['errors']}, recorded metadata {b0['metadata']}; executed one after the other they leave {b0['serial_metadata']}; "
+                      f"{len(badddl)} interleavings differ", b0)
     # (3) free-running threads (a test, not a proof): scenarios that are clean on the unchanged tree
     bad = stress(ck, 40 if thorough else 6)
     if bad:
